@@ -19,17 +19,27 @@ theorem so3Jl_taylor (eps : ℝ) (y : Vec3 ℝ) (h : ¬ eps < y.norm) :
   unfold so3Jl so3JlCoef
   simp only [lt_real, h, decide_false, Bool.false_eq_true, if_false, q_real, k_real, Nat.cast_one, Nat.cast_ofNat, Vec3.norm_sq]
 
-/-- **`se3_Exp.backward` at the zero vector**: exact (`se3_Jl(0) = 1`), Taylor branches only -/
-theorem se3Exp_tangent_zero (eps : ℝ) (heps : 0 < eps) (x : ℝ → DVec ℝ) (d0 d1 d2 d3 d4 d5 : ℝ)
-    (hx : LCurve 6 x [d0, d1, d2, d3, d4, d5]) (hzt : v3 (x 0) = ⟨0, 0, 0⟩) (hzp : v3 (x 0) 3 = ⟨0, 0, 0⟩) :
+theorem so3JlInv_taylor (eps : ℝ) (y : Vec3 ℝ) (h : ¬ eps < y.norm) : so3JlInv eps y = polyK 1 (-(1/2)) (1/12) y := by
+  unfold so3JlInv so3JlInvCoef
+  simp only [lt_real, h, decide_false, Bool.false_eq_true, if_false, q_real, k_real, Nat.cast_one, Nat.cast_ofNat]
+
+theorem calcQ_phi_zero (eps : ℝ) (τ : Vec3 ℝ) : calcQ eps ⟨τ, ⟨0, 0, 0⟩⟩ = Mat3.smul (1/2) (Mat3.hat τ) := by
+  unfold calcQ
+  simp only [norm_zero3]
+  ext <;> lie_unfold <;> simp
+
+/-- **`se3_Exp.backward` at rotation part zero, any translation part** (Taylor branch of `so3_Jl`, series branch of `calcQ`,
+which at `φ = 0` is `½ hat τ`): exact. -/
+theorem se3Exp_tangent_zerorot (eps : ℝ) (heps : 0 < eps) (x : ℝ → DVec ℝ) (d0 d1 d2 d3 d4 d5 : ℝ)
+    (hx : LCurve 6 x [d0, d1, d2, d3, d4, d5]) (hzp : v3 (x 0) 3 = ⟨0, 0, 0⟩) :
     LCurve 7 (fun t => expF .SE3 eps (x t))
       (liftG .SE3 (expF .SE3 eps (x 0)) ((JlMat .SE3 eps (x 0)).mulVec [d0, d1, d2, d3, d4, d5])) := by
   have h0 := hx 0 (by norm_num); have h1 := hx 1 (by norm_num); have h2 := hx 2 (by norm_num)
   have h3 := hx 3 (by norm_num); have h4 := hx 4 (by norm_num); have h5 := hx 5 (by norm_num)
   simp only [nth_cons_zero, nth_cons_succ] at h0 h1 h2 h3 h4 h5
-  have z0 : nth (x 0) 0 = 0 := by have := congrArg Vec3.x hzt; simpa [v3] using this
-  have z1 : nth (x 0) 1 = 0 := by have := congrArg Vec3.y hzt; simpa [v3] using this
-  have z2 : nth (x 0) 2 = 0 := by have := congrArg Vec3.z hzt; simpa [v3] using this
+  set u0 := nth (x 0) 0 with z0
+  set u1 := nth (x 0) 1 with z1
+  set u2 := nth (x 0) 2 with z2
   have z3 : nth (x 0) 3 = 0 := by have := congrArg Vec3.x hzp; simpa [v3] using this
   have z4 : nth (x 0) 4 = 0 := by have := congrArg Vec3.y hzp; simpa [v3] using this
   have z5 : nth (x 0) 5 = 0 := by have := congrArg Vec3.z hzp; simpa [v3] using this
@@ -57,12 +67,16 @@ theorem se3Exp_tangent_zero (eps : ℝ) (heps : 0 < eps) (x : ℝ → DVec ℝ) 
   have hrot := so3Exp_tangent_zero eps heps (fun t => [nth (x t) 3, nth (x t) 4, nth (x t) 5]) d3 d4 d5 hφ
     (by simp [v3, z3, z4, z5])
   -- the claimed tangent is d itself: se3_Jl(0) = 1
-  have hx0 : tose3 (x 0) = ⟨⟨0, 0, 0⟩, ⟨0, 0, 0⟩⟩ := by simp [tose3, hzt, hzp]
-  have hJ : (JlMat .SE3 eps (x 0)).mulVec [d0, d1, d2, d3, d4, d5] = [d0, d1, d2, d3, d4, d5] := by
-    simp only [JlMat, se3Jl, hx0, so3Jl_zero eps (le_of_lt heps), calcQ_zero]
+  have hx0 : tose3 (x 0) = ⟨⟨u0, u1, u2⟩, ⟨0, 0, 0⟩⟩ := by
+    simp only [tose3, hzp]; simp [v3, z0, z1, z2]
+  have hJ : (JlMat .SE3 eps (x 0)).mulVec [d0, d1, d2, d3, d4, d5]
+      = [d0 + 1/2 * (u1 * d5 - u2 * d4), d1 + 1/2 * (u2 * d3 - u0 * d5), d2 + 1/2 * (u0 * d4 - u1 * d3), d3, d4, d5] := by
+    simp only [JlMat, se3Jl, hx0, so3Jl_zero eps (le_of_lt heps), calcQ_phi_zero]
     simp [Mat3.toRows, Mat3.one, Mat3.zero, Vec3.zero, Vec3.toList, Vec3.e0, Vec3.e1, Vec3.e2, DMat.block, DMat.hcat, DMat.vcat,
       DMat.zero, DVec.zero, DMat.mulVec, ddot_cons]
-  have hval : expF .SE3 eps (x 0) = [0, 0, 0, 0, 0, 0, 1] := by
+    lie_unfold
+    refine ⟨?_, ?_, ?_⟩ <;> ring
+  have hval : expF .SE3 eps (x 0) = [u0, u1, u2, 0, 0, 0, 1] := by
     have hq : so3Exp eps ⟨0, 0, 0⟩ = ⟨0, 0, 0, 1⟩ := by
       have hn : ¬ eps < (⟨0, 0, 0⟩ : Vec3 ℝ).norm := by rw [norm_zero3]; exact not_lt.mpr (le_of_lt heps)
       rw [so3Exp_taylor eps _ hn]; simp [Quat.mk', Vec3.smul, Vec3.normSq]
@@ -71,7 +85,7 @@ theorem se3Exp_tangent_zero (eps : ℝ) (heps : 0 < eps) (x : ℝ → DVec ℝ) 
   rw [hJ, hval]
   have key : ∀ i, i < 3 → HasDerivAt (fun t => nth (((polyK 1 (1/2 - 1/24 * (v3 (x t) 3).normSq) (1/6 - 1/120 * (v3 (x t) 3).normSq)
         (v3 (x t) 3)).mulVec (v3 (x t))).toList) i)
-      (nth (liftG .SE3 [0, 0, 0, 0, 0, 0, 1] [d0, d1, d2, d3, d4, d5]) i) 0 := by
+      (nth (liftG .SE3 [u0, u1, u2, 0, 0, 0, 1] [d0 + 1/2 * (u1 * d5 - u2 * d4), d1 + 1/2 * (u2 * d3 - u0 * d5), d2 + 1/2 * (u0 * d4 - u1 * d3), d3, d4, d5]) i) 0 := by
     intro i hi
     interval_cases i
     all_goals
@@ -82,7 +96,7 @@ theorem se3Exp_tangent_zero (eps : ℝ) (heps : 0 < eps) (x : ℝ → DVec ℝ) 
       simp (disch := fun_prop) only [deriv_fun_add, deriv_fun_sub, deriv_fun_mul, deriv_const, deriv_const_mul_field,
         deriv.fun_neg, h0.deriv, h1.deriv, h2.deriv, h3.deriv, h4.deriv, h5.deriv]
       simp only [liftG, liftQ, v3, qt, Vec3.toList, Quat.toList, List.cons_append, List.nil_append, nth_cons_zero, nth_cons_succ,
-        z0, z1, z2, z3, z4, z5]
+        ← z0, ← z1, ← z2, z3, z4, z5]
       lie_unfold
       try simp only [nth_cons_zero, nth_cons_succ]
       ring
@@ -111,14 +125,12 @@ theorem se3Exp_tangent_zero (eps : ℝ) (heps : 0 < eps) (x : ℝ → DVec ℝ) 
     interval_cases j <;>
       simp [liftG, liftQ, Vec3.toList, Quat.toList, v3, qt, Quat.mul, Quat.mk', Vec3.smul]
 
-theorem so3JlInv_taylor (eps : ℝ) (y : Vec3 ℝ) (h : ¬ eps < y.norm) : so3JlInv eps y = polyK 1 (-(1/2)) (1/12) y := by
-  unfold so3JlInv so3JlInvCoef
-  simp only [lt_real, h, decide_false, Bool.false_eq_true, if_false, q_real, k_real, Nat.cast_one, Nat.cast_ofNat]
-
-theorem calcQ_phi_zero (eps : ℝ) (τ : Vec3 ℝ) : calcQ eps ⟨τ, ⟨0, 0, 0⟩⟩ = Mat3.smul (1/2) (Mat3.hat τ) := by
-  unfold calcQ
-  simp only [norm_zero3]
-  ext <;> lie_unfold <;> simp
+/-- at the zero vector -/
+theorem se3Exp_tangent_zero (eps : ℝ) (heps : 0 < eps) (x : ℝ → DVec ℝ) (d0 d1 d2 d3 d4 d5 : ℝ)
+    (hx : LCurve 6 x [d0, d1, d2, d3, d4, d5]) (hzt : v3 (x 0) = ⟨0, 0, 0⟩) (hzp : v3 (x 0) 3 = ⟨0, 0, 0⟩) :
+    LCurve 7 (fun t => expF .SE3 eps (x t))
+      (liftG .SE3 (expF .SE3 eps (x 0)) ((JlMat .SE3 eps (x 0)).mulVec [d0, d1, d2, d3, d4, d5])) :=
+  se3Exp_tangent_zerorot eps heps x d0 d1 d2 d3 d4 d5 hx hzp
 
 /-- `t ↦ (1 − K(ψ)/2 + K(ψ)²/12)·x` along curves `ψ(t)` through `0` and `x(t)`: velocity `ẋ − ψ̇×x/2` -/
 theorem jlinvTaylor_curve (p0 p1 p2 x0 x1 x2 : ℝ → ℝ) (b0 b1 b2 c0 c1 c2 : ℝ)
